@@ -1,9 +1,15 @@
 """C13 / C14 driver: proof editing on real ProofState objects (server/method.py, kernel/proof.py, app/ide.py).
 
-usage: python -m harness.drivers.c13 <mode> <out.ndjson> <seed> <n_theorems> <theory>[,<theory>...]
+usage: python -m harness.drivers.c13 <mode> <out.ndjson> <seed> <n_theorems> <theory>[,<theory>...] [<n_sessions>]
+       python -m harness.drivers.c13 lineedit <vectors (TLC log of spec/C13_LineEdit.tla)> <out.ndjson> <seed>
   mode = edit     C13 events: after every editing operation that completes (recorded steps replayed live or on a copy, seeded
-                  perturbations: other methods / goals / facts, cut, cases, new_var, introduction, revert_intro), the projected
-                  state, full re-check, gap-free re-check, export -> parse_proof round trip, copy isolation; ProofCache histories
+                  random walks of up to 4 further operations: other methods / goals / facts, cut, cases, new_var, introduction,
+                  revert_intro, forall_elim, exists_elim), the projected state, full re-check, gap-free re-check, export ->
+                  parse_proof round trip, copy isolation; ProofCache histories; generated editing sessions on generated goals
+                  in theory logic (sibling scopes binding one name at different types, several exists_elim in one scope,
+                  a cut cited from a later subproof and then merged away, nested variants, random walks)
+  mode = lineedit the behaviours printed by the S spec, performed on a REAL ProofState through add_line_before / remove_line /
+                  replace_id / set_line; one event per step with the projected real proof before / after and the spec's proof
   mode = suggest  C14 events: at prefix states, every suggestion of search_method applied on a copy
 No verdict is computed here: only projection (sequents / terms are interned to integers through the structural codec).
 """
